@@ -24,3 +24,9 @@ pub trait DirectLDLSolver<T: FloatT>: DirectLDLSolverReqs<T> + HasLinearSolverIn
     fn solve(&mut self, kkt: &CscMatrix<T>, x: &mut [T], b: &[T]);
     fn refactor(&mut self, kkt: &CscMatrix<T>) -> bool;
 }
+
+// re-exports for the verification hooks in src/verif.rs
+#[cfg(clarabel_verif)]
+pub(crate) use datamaps::{LDLDataMap, SparseExpansionMap};
+#[cfg(clarabel_verif)]
+pub(crate) use kkt_assembly::assemble_kkt_matrix;
